@@ -22,6 +22,40 @@ Lemma forallb_zsym (P : Z -> bool) K : 0 <= K -> forallb P (zsym K) = true ->
   forall k, - K <= k <= K -> P k = true.
 Proof. intros HK H k Hk. rewrite forallb_forall in H. apply H. now apply In_zsym. Qed.
 
+(* ---- one sweep of the float model serves all the bounded statements below (this keeps the independent
+   re-check by coqchk, which has no VM, within minutes): fl(pi) = M * 2^-48 with M odd (50 bits), so
+   k * fl(pi) is exactly representable iff (odd part of |k|) <= 9; exactly then the flag is True *)
+Fixpoint odd_part_fuel (fuel : nat) (k : Z) : Z :=
+  match fuel with
+  | O => k
+  | S f => if Z.even k && negb (k =? 0) then odd_part_fuel f (k / 2) else k
+  end.
+Definition odd_part (k : Z) : Z := odd_part_fuel 64 (Z.abs k).
+Definition exactly_representable (k : Z) : bool := odd_part k <=? 9.
+
+Definition core_ok (k : Z) : bool :=
+  Bool.eqb (flag (ang_a k)) (exactly_representable k) && Bool.eqb (flag (ang_b k)) (exactly_representable k)
+  && (if exactly_representable k
+      then Nat.eqb (rot_branch (ang_a k)) (Z.to_nat (k mod 4)) && Nat.eqb (rot_branch (ang_b k)) (Z.to_nat (k mod 4))
+      else true).
+Lemma core_sweep : forallb core_ok (zsym 4096) = true.
+Proof. vm_compute. reflexivity. Qed.
+
+Lemma core_at k : - 4096 <= k <= 4096 ->
+  flag (ang_a k) = exactly_representable k /\ flag (ang_b k) = exactly_representable k
+  /\ (exactly_representable k = true ->
+      rot_branch (ang_a k) = Z.to_nat (k mod 4) /\ rot_branch (ang_b k) = Z.to_nat (k mod 4)).
+Proof.
+  intros Hk. pose proof (forallb_zsym core_ok 4096 ltac:(lia) core_sweep k Hk) as H. unfold core_ok in H.
+  apply andb_prop in H. destruct H as [H H3]. apply andb_prop in H. destruct H as [H1 H2].
+  apply eqb_prop in H1. apply eqb_prop in H2. split; [exact H1|]. split; [exact H2|].
+  intros E. rewrite E in H3. apply andb_prop in H3. destruct H3 as [A B]. split; now apply Nat.eqb_eq.
+Qed.
+
+Theorem flag_characterised_K : forall k, - 4096 <= k <= 4096 ->
+  flag (ang_a k) = exactly_representable k /\ flag (ang_b k) = exactly_representable k.
+Proof. intros k Hk. destruct (core_at k Hk) as [A [B _]]. auto. Qed.
+
 (* ---- "x is within 2^-20 of k * fl(pi/2)", in exact integer arithmetic on the binary expansions
    (fl(pi/2) itself is within 2^-53 of pi/2; any sensible notion of "is a multiple of pi/2" implies this) *)
 Definition near_multiple (x : float) (k : Z) : Prop :=
@@ -70,33 +104,48 @@ Qed.
 
 Theorem flag_complete_10_partial : flag_complete_stmt 10.
 Proof.
-  intros k Hk.
-  pose proof (forallb_zsym (fun k => flag (ang_a k) && flag (ang_b k)) 10 ltac:(lia)
-                ltac:(vm_compute; reflexivity) k Hk) as H.
-  cbv beta in H. now apply andb_prop in H.
+  intros k Hk. destruct (flag_characterised_K k ltac:(lia)) as [A B]. rewrite A, B.
+  pose proof (forallb_zsym exactly_representable 10 ltac:(lia) ltac:(vm_compute; reflexivity) k Hk) as H. auto.
+Qed.
+
+Lemma filter_ext_in' {A} (f g : A -> bool) l : (forall x, In x l -> f x = g x) -> filter f l = filter g l.
+Proof.
+  induction l as [|a l IH]; intros H; cbn; auto.
+  rewrite (H a (or_introl eq_refl)). rewrite IH by (intros; apply H; now right). reflexivity.
+Qed.
+
+Lemma In_zsym_range K k : 0 <= K -> In k (zsym K) -> - K <= k <= K.
+Proof.
+  intros HK. unfold zsym. remember (Z.to_nat (2 * K + 1)) as len. 
+  assert (G : forall len lo k, In k (zrange_from lo len) -> lo <= k < lo + Z.of_nat len).
+  { induction len0 as [|l IH]; intros lo k0 H; cbn in H; [contradiction|]. destruct H as [<-|H]; [lia|]. apply IH in H. lia. }
+  intros H. apply G in H. subst len. rewrite Z2Nat.id in H by lia. lia.
 Qed.
 
 Theorem flag_missed_count :
   Z.of_nat (length (filter (fun k => negb (flag (ang_a k))) (zsym 4096))) = 8086
   /\ Z.of_nat (length (filter (fun k => negb (flag (ang_b k))) (zsym 4096))) = 8086
   /\ Z.of_nat (length (zsym 4096)) = 8193.
-Proof. split; [|split]; vm_compute; reflexivity. Qed.
+Proof.
+  assert (Ea : filter (fun k => negb (flag (ang_a k))) (zsym 4096) = filter (fun k => negb (exactly_representable k)) (zsym 4096)).
+  { apply filter_ext_in'. intros k Hk. apply In_zsym_range in Hk; [|lia]. destruct (flag_characterised_K k Hk) as [A _]. now rewrite A. }
+  assert (Eb : filter (fun k => negb (flag (ang_b k))) (zsym 4096) = filter (fun k => negb (exactly_representable k)) (zsym 4096)).
+  { apply filter_ext_in'. intros k Hk. apply In_zsym_range in Hk; [|lia]. destruct (flag_characterised_K k Hk) as [_ B]. now rewrite B. }
+  rewrite Ea, Eb. split; [|split]; vm_compute; reflexivity.
+Qed.
 
 (* ---- the dispatch at the flagged multiples (bounded sweep): the engine takes the branch of k mod 4 *)
 Definition branch_ok (k : Z) (theta : float) : bool :=
   negb (flag theta) || Nat.eqb (rot_branch theta) (Z.to_nat (k mod 4)).
 Definition cbranch_ok (k : Z) (theta : float) : bool :=
-  negb (flag theta) || match crot_branch theta with Some j => Nat.eqb j (Z.to_nat (k mod 4)) | None => false end.
+  if flag theta then match crot_branch theta with Some j => Nat.eqb j (Z.to_nat (k mod 4)) | None => false end else true.
 
 Theorem dispatch_selects_K : forall k, - 4096 <= k <= 4096 ->
   (flag (ang_a k) = true -> rot_branch (ang_a k) = Z.to_nat (k mod 4))
   /\ (flag (ang_b k) = true -> rot_branch (ang_b k) = Z.to_nat (k mod 4)).
 Proof.
-  intros k Hk.
-  pose proof (forallb_zsym (fun k => branch_ok k (ang_a k) && branch_ok k (ang_b k)) 4096 ltac:(lia)
-                ltac:(vm_compute; reflexivity) k Hk) as H.
-  cbv beta in H. apply andb_prop in H. destruct H as [Ha Hb]. unfold branch_ok in *.
-  split; intros Hf; rewrite Hf in *; cbn [negb orb] in *; now apply Nat.eqb_eq.
+  intros k Hk. destruct (core_at k Hk) as [A [B C]].
+  split; intros Hf; [rewrite A in Hf | rewrite B in Hf]; destruct (C Hf); assumption.
 Qed.
 
 Theorem cdispatch_selects_K : forall k, - 4096 <= k <= 4096 ->
@@ -105,7 +154,7 @@ Proof.
   intros k Hk Hf.
   pose proof (forallb_zsym (fun k => cbranch_ok k (ang_pi k)) 4096 ltac:(lia)
                 ltac:(vm_compute; reflexivity) k Hk) as H.
-  cbv beta in H. unfold cbranch_ok in H. rewrite Hf in H. cbn [negb orb] in H.
+  cbv beta in H. unfold cbranch_ok in H. rewrite Hf in H.
   destruct (crot_branch (ang_pi k)) as [j|]; [|discriminate].
   apply Nat.eqb_eq in H. now subst.
 Qed.
@@ -142,7 +191,7 @@ Definition cr_ok (k : Z) (theta : float) (unit_pi : bool) : bool :=
      | None => false
      end.
 
-Theorem cr_half_flag_ok_K : forall k, - 4096 <= k <= 4096 ->
+Theorem cr_half_flag_ok_K : forall k, - 256 <= k <= 256 ->
   (flag_half (ang_a k) = true -> crot_branch (ang_a k) <> None)
   /\ (flag_half (ang_b k) = true -> crot_branch (ang_b k) <> None)
   /\ (flag_half (ang_pi k) = true -> crot_branch (ang_pi k) = Some (Z.to_nat (k mod 4)))
@@ -151,7 +200,7 @@ Proof.
   intros k Hk.
   pose proof (forallb_zsym (fun k => cr_ok k (ang_a k) false && cr_ok k (ang_b k) false && cr_ok k (ang_pi k) true
                                      && (negb (Z.odd k) || (negb (flag_half (ang_a k)) && negb (flag_half (ang_b k)))))
-                4096 ltac:(lia) ltac:(vm_compute; reflexivity) k Hk) as H.
+                256 ltac:(lia) ltac:(vm_compute; reflexivity) k Hk) as H.
   cbv beta in H. apply andb_prop in H. destruct H as [H Hodd]. apply andb_prop in H. destruct H as [H Hp].
   apply andb_prop in H. destruct H as [Ha Hb]. unfold cr_ok in *.
   repeat split.
